@@ -489,6 +489,7 @@ let load_hook (mode : int) : (n -> val0 -> load_result) option =
   | 3 -> logged (fun idx _ ->
            match int_of_n idx mod 3 with 0 -> LObj (VUser idx) | 1 -> LNil | _ -> LErr)
   | 4 -> logged (fun idx pid -> match pid with VStr _ -> LObj (VUser idx) | _ -> LNil)
+  | 6 -> logged (fun idx _ -> if int_of_n idx mod 2 = 1 then LErr else LObj (VUser idx))   (* an object AND an error: the error counts *)
   | 5 -> logged inv_load        (* the registry hook of Model/Norm.v (hook_spec proved: inv_hook_ok) *)
   | _ -> failwith "bad load mode"
 
